@@ -792,12 +792,135 @@ func CheckC07(c *Ctx) {
 			history(c, w, api, n, habv, hval, false)
 		})
 	}
+	// (e) CONFIGURATION WALK: every configuration of the optional metrics in Gray-code order, one Set per step
+	// on one object; after every Set the changed metric and (thorough: all; quick: four rotating) other
+	// metrics are read back and compared with the shadow map. Complete in thorough for every version
+	// (v4.0: threat + environmental metrics, supplemental seeded); quick walks a seeded fraction of the chunks.
+	for _, api := range probe.APIs {
+		api := api
+		v := api.Ver
+		var opt []int
+		for m, me := range v.Metrics {
+			if !me.Mandatory && me.Group != spec.GSupp {
+				opt = append(opt, m)
+			}
+		}
+		pre := 3
+		if v.ID == spec.V40 {
+			pre = 4
+		}
+		nChunks := 1
+		for _, m := range opt[:pre] {
+			nChunks *= len(v.Metrics[m].Values)
+		}
+		stride := 1
+		if c.Quick {
+			switch v.ID {
+			case spec.V20:
+				stride = 1
+			case spec.V40:
+				stride = 64
+			default:
+				stride = 10
+			}
+		}
+		off := c.Rand("walk-offset", v.Name).Intn(stride)
+		walk := opt[pre:]
+		c.Parallel("configuration-walk-"+v.Name, (nChunks-off+stride-1)/stride, 1, func(w *Worker, k int) {
+			ci := off + k*stride
+			a := gen.KSparseAssign(w.R, v, 0)
+			for mI, me := range v.Metrics {
+				if me.Group == spec.GSupp {
+					a[mI] = uint8(w.R.Intn(len(me.Values)))
+				}
+			}
+			x := ci
+			for _, m := range opt[:pre] {
+				n := len(v.Metrics[m].Values)
+				a[m] = uint8(x % n)
+				x /= n
+			}
+			o, fail := Build(api, a, HSetInOrder, w.R, nil)
+			if fail != "" {
+				c.Violate(Violation{Kind: "cannot-build-object", Version: v.Name, Expected: v.Canonical(a), Observed: fail})
+				return
+			}
+			n := len(walk)
+			dig, foc, dir := make([]int, n), make([]int, n+1), make([]int, n)
+			for j := range foc {
+				foc[j] = j
+			}
+			for j := range dir {
+				dir[j] = 1
+			}
+			var cnt int64
+			rot := 0
+			for {
+				j := foc[0]
+				foc[0] = 0
+				if j == n {
+					break
+				}
+				dig[j] += dir[j]
+				if dig[j] == 0 || dig[j] == len(v.Metrics[walk[j]].Values)-1 {
+					dir[j] = -dir[j]
+					foc[j] = foc[j+1]
+					foc[j+1] = j + 1
+				}
+				m := walk[j]
+				a[m] = uint8(dig[j])
+				err, p := probe.SafeSet(o, v.Metrics[m].Abv, v.Metrics[m].Values[dig[j]])
+				cnt++
+				bad := ""
+				if err != nil || p != nil {
+					bad = fmt.Sprint("Set failed: ", err, p)
+				}
+				check := func(mm int) {
+					if bad != "" {
+						return
+					}
+					g, e2, p2 := probe.SafeGet(o, v.Metrics[mm].Abv)
+					cnt++
+					if e2 != nil || p2 != nil || g != v.Metrics[mm].Values[a[mm]] {
+						bad = fmt.Sprintf("Get(%q) = (%q, %v, %v), shadow map says %q", v.Metrics[mm].Abv, g, e2, p2, v.Metrics[mm].Values[a[mm]])
+					}
+				}
+				check(m)
+				if c.Quick {
+					for t := 0; t < 4; t++ {
+						rot = (rot + 1) % v.N()
+						check(rot)
+					}
+				} else {
+					for mm := range v.Metrics {
+						check(mm)
+					}
+				}
+				if bad != "" {
+					c.Violate(Violation{Kind: "set-changed-other-metric", Version: v.Name, Steps: []Step{{Op: "parse", S: v.Canonical(a)}, {Op: "set", S: v.Metrics[m].Abv, Val: v.Metrics[m].Values[dig[j]]}},
+						Expected: "after a Gray-code walk of Set calls the object holds " + v.Canonical(a), Observed: bad, Detail: map[string]any{"metric": v.Metrics[m].Abv, "workload": "configuration-walk"}})
+					if c.nviolA.Load() > 100 {
+						break
+					}
+					// resynchronise the object with the shadow map and go on
+					o, _ = Build(api, a, HParseCanonical, w.R, nil)
+					if o == nil {
+						break
+					}
+				}
+			}
+			w.EvalN(cnt)
+			w.counts["configuration-walk-sets-v"+v.Name] += int64(0)
+			w.Acc[60] += cnt
+		})
+	}
+	c.Extra["configuration_walk_calls"] = c.Acc[60]
 	c.Floor("successful Sets", c.Counts["set-ok"], 100000)
 	c.Floor("failed Sets", c.Counts["set-failed"], 10000)
 	c.Extra["quadruples_complete"] = true
 	c.Extra["quadruples"] = quads
 	c.SetReport(Report{
-		Rule:        "(a) COMPLETE set of quadruples (metric m, value v, other metric m', value v') on three backgrounds (all-first-code, all-last-code, random): object built through the API, three failing Sets (illegal value, unknown abbreviation, lower-case value) must leave it bit-identical, then Set(m,v) must change m and nothing else (all Gets vs shadow map) and the result must be == to the freshly parsed canonical vector; (b) random histories of 1-200 Sets (70% legal / 20% illegal value / 10% unknown abbreviation) checked against the shadow map after EVERY step, final object compared with == against three independently built objects. evaluations = API calls; distinct = quadruples + distinct (final map, length) histories",
+		Rule:        "(a) COMPLETE set of quadruples (metric m, value v, other metric m', value v') on three backgrounds (all-first-code, all-last-code, random): object built through the API, three failing Sets (illegal value, unknown abbreviation, lower-case value) must leave it bit-identical, then Set(m,v) must change m and nothing else (all Gets vs shadow map) and the result must be == to the freshly parsed canonical vector; (b) random histories of 1-200 Sets (70% legal / 20% illegal value / 10% unknown abbreviation) checked against the shadow map after EVERY step, final object compared with == against three independently built objects; (c) a Gray-code walk over every configuration of the optional metrics (complete in thorough: 192,000 / 221,184,000 x2 / 1,179,648,000; quick: a seeded fraction of the chunks), one Set per step with read-back against the shadow map. evaluations = API calls; distinct = quadruples + distinct (final map, length) histories",
 		Exhaustive:  false,
 		DistinctN:   quads + c.Distinct.Count(),
 		Assumptions: []string{"the quadruple matrix is complete; histories are sampled"},
